@@ -162,3 +162,34 @@ claim("C16",
       "handed out strictly increasing and above every loaded id, so no id is defined twice by the generators (IG1-3, SK1). NOT proved: visibility of "
       "every used id at its point of use (cid redirection through hash maps), select arity.",
       "toposort()'s HashMap index / outer loop, lower_table_decl and the Lowerer's node_mapping are not under contract.")
+
+prop("C13", ["span_units"],
+     not_covered="ariadne rendering (the quoted line), multi-file source ids, resolver / SQL-generation errors (their spans are copied from parser spans)")
+claim("C13",
+      "PARTIAL. Proved on the real code: convert_lexer_error stores a span in CHARACTER units - the character positions of the byte offsets chumsky "
+      "reported - with start <= end <= number of characters of the source and the given source id (SU3a-d, helpers inlined); compose_location reports "
+      "exactly the line/column of span.start and span.end (SU1a-c); the parser's map_span yields the BYTE range of the tokens (SU2m). The linking "
+      "obligation 'a byte offset inside the source is a character offset inside the source' (SU2) fails: recorded finding (panic / misplaced caret on "
+      "non-ASCII sources). NOT proved: rendering, multi-file ids.",
+      "UTF-8 text model (char_len <= byte_len, monotone prefix counts), chumsky's span contract, ariadne's get_offset_line and error constructors are "
+      "assumed by contract.")
+
+
+def _safety(name):
+    lab = name.split(".", 1)[1]
+    return lab.endswith(".safety") or lab.endswith(".overflow") or lab.endswith(".div0") or lab.endswith(".decreases") or lab.endswith(".unreachable") \
+        or lab in ("SU2", "TR3s", "TR3e", "TR3o", "SB1", "SB2", "TS0", "WF1b")
+
+
+_ALL_UNITS = ["take_range", "sort_take", "split_order", "window_frame", "dialect_select", "ident_quote", "ids_names", "toposort", "rq_tables",
+              "select_shape", "span_units", "sql_prec", "prql_prec"]
+prop("C12", _ALL_UNITS, select={u: _safety for u in _ALL_UNITS},
+     not_covered="every function that is not under contract (~150 unwrap/expect sites, todo!() in type_intersection, panic!(cannot find cid) in lookup_cid), "
+                 "recursion depth, chumsky, time bounds")
+claim("C12",
+      "PARTIAL. C12 collects the panic-freedom and termination obligations of every real function under contract in the other units: Verus proves, per "
+      "function, absence of arithmetic overflow, failed unwrap/expect, out-of-range index, reachable unreachable!() and (for Toposort::visit and every "
+      "loop) termination, under preconditions derived from the call sites. Obligations whose failure is a recorded finding: the parser-span / "
+      "character-offset mismatch that makes ErrorMessages::composed panic (span_units.SU2). NOT proved: the rest of the code base, stack depth, time.",
+      "Preconditions (validated take bounds, operator arities as the resolver builds them, id counters below usize::MAX) are assumptions about call sites "
+      "that are not themselves verified; RQ/PL supplied as JSON can violate them.")
